@@ -357,6 +357,10 @@ func (V *Verifier) verifyFuncMode(fi *FuncInfo, fct *FuncContract, ceUnroll int)
 	// vacuity cover: the precondition must be satisfiable
 	cover := &Obligation{Name: fc.Name + "/pre-sat", Kind: "pre-sat", Func: fc.Name, Decls: append([]string(nil), fc.decls...), Facts: st.facts.slice(), Goal: "false", Expect: "sat"}
 	fc.obls = append(fc.obls, cover)
+	for _, tn := range fct.Traced {
+		st.ghost["tr_"+tn] = vRaw(fc.fresh("tr_"+tn, "(Array Int Int)"), "(Array Int Int)")
+		st.ghost["ntr_"+tn] = vInt("0", intType)
+	}
 	fc.entry = st.clone()
 	for _, g := range fct.Ghosts {
 		st.execGhost(g, bodyPos)
@@ -634,8 +638,42 @@ func (st *State) runAnchor(anchor string, pos token.Pos) {
 			st.assume(g)
 		case "ghost":
 			st.execGhost(c, pos)
+		case "apply":
+			st.applyLemma(c, anchor, i, pos)
 		}
 	}
+}
+
+// applyLemma instantiates a lemma with explicit arguments: requires are obligations, ensures are assumed.
+func (st *State) applyLemma(c *Clause, anchor string, idx int, pos token.Pos) {
+	fc := st.fc
+	name := c.Expr.Text
+	var lem *FuncContract
+	for _, pc := range fc.V.contractsByName {
+		if l := pc.Funcs[name]; l != nil && l.Lemma {
+			lem = l
+		}
+	}
+	if lem == nil {
+		panic(vcErr("apply: unknown lemma " + name))
+	}
+	if len(c.Expr.Args) != len(lem.LemmaPars) {
+		panic(vcErr("apply " + name + ": wrong number of arguments"))
+	}
+	env := fc.newSpecEnv(st, nil, fc.entrySnap, pos, fc.Name+"/apply "+name)
+	bind := map[string]Val{}
+	for i, p := range lem.LemmaPars {
+		bind[p.Name] = env.eval(c.Expr.Args[i])
+	}
+	q := 3000
+	le := &SpecEnv{st: st, names: bind, pkg: fc.V.pkgByName[lem.Pkg], what: "lemma " + name, qcount: &q}
+	for i, r := range lem.Requires {
+		st.oblige("lemma-pre", fmt.Sprintf("%s/%d:%s/requires%d", anchor, idx+1, name, i+1), le.evalBool(r.Expr), pos)
+	}
+	for _, e := range lem.Ensures {
+		st.assume(le.evalBool(e.Expr))
+	}
+	fc.noteCallee("lemma " + name)
 }
 
 func (st *State) execGhost(c *Clause, pos token.Pos) {
@@ -784,7 +822,31 @@ func (V *Verifier) verifyLemma(pkg string, lem *FuncContract) *FuncResult {
 			post = append(post, env2.evalBool(e.Expr))
 		}
 		ih := fmt.Sprintf("(forall (%s) %s)", strings.Join(decl, " "), sImp(sAnd(append(pre, sCmp("<=", "0", m1), sCmp("<", m1, m0))...), sAnd(post...)))
-		st.facts = st.facts.push(ih)
+		if len(lem.IH) == 0 {
+			st.facts = st.facts.push(ih)
+		}
+		// explicit instances of the induction hypothesis (when given, the universal form is omitted: smaller queries)
+		for _, ihc := range lem.IH {
+			if len(ihc.List) != len(lem.LemmaPars) {
+				res.Err = "ih needs one expression per lemma parameter"
+				return res
+			}
+			b3 := map[string]Val{}
+			for i, p := range lem.LemmaPars {
+				b3[p.Name] = env.eval(ihc.List[i])
+			}
+			q3 := 2000
+			env3 := &SpecEnv{st: st, names: b3, pkg: fc.Pkg, what: "lemma " + lem.Key + " (IH instance)", qcount: &q3}
+			mi := env3.eval(lem.Decreases.Expr).S
+			var pre3, post3 []string
+			for _, r := range lem.Requires {
+				pre3 = append(pre3, env3.evalBool(r.Expr))
+			}
+			for _, e := range lem.Ensures {
+				post3 = append(post3, env3.evalBool(e.Expr))
+			}
+			st.facts = st.facts.push(sImp(sAnd(append(pre3, sCmp("<=", "0", mi), sCmp("<", mi, m0))...), sAnd(post3...)))
+		}
 		st.facts = st.facts.push(sCmp("<=", "0", m0)) // cases with a negative measure must be covered by a separate lemma or be vacuous
 		// the negative-measure case is a separate obligation
 		for i, e := range lem.Ensures {
